@@ -57,6 +57,7 @@ type world struct {
 	mgr       *cluster.VerifManager
 	mgrRef    vivid.ActorRef
 	accidents atomic.Int64
+	askers    []vivid.ActorRef // suite cmgr-conc: asker actors, spawned on demand, live until shutdown
 
 	mu       sync.Mutex
 	launches map[string]int // logical address -> number of times the ability's provider was launched there
@@ -207,8 +208,21 @@ func fmtReply(r askResult) (string, vivid.ActorRef) {
 	}
 }
 
-// incarnation asks the referenced actor which launch it is ("dead" when nobody answers there)
-func incarnation(ask func(target vivid.ActorRef, m vivid.Message, timeout ...time.Duration) future.Future[vivid.Message], ref vivid.ActorRef) string {
+// incarnation asks the referenced actor which launch it is. "dead" is only answered when it is final:
+// the manager no longer has a child at that address (read in the manager's own turn), or nobody
+// answers the ping within the cap.
+func (w *world) incarnation(ask func(target vivid.ActorRef, m vivid.Message, timeout ...time.Duration) future.Future[vivid.Message], ref vivid.ActorRef) string {
+	addr := ref.GetLogicalAddress()
+	if v, ok := w.inManager(func(ctx vivid.ActorContext) any {
+		for _, r := range ctx.Children() {
+			if r.GetLogicalAddress() == addr {
+				return true
+			}
+		}
+		return false
+	}).(bool); ok && !v {
+		return "dead"
+	}
 	v, err := ask(ref, pingMsg{}, askCap).Result()
 	if err != nil {
 		return "dead"
@@ -251,7 +265,7 @@ func (w *world) lookup(identity, ability string) string {
 	if answered {
 		s, ref := fmtReply(r)
 		if ref != nil {
-			s = "ref " + enc(ref.GetLogicalAddress()) + " #" + incarnation(w.sys.FutureAsk, ref)
+			s = "ref " + enc(ref.GetLogicalAddress()) + " #" + w.incarnation(w.sys.FutureAsk, ref)
 		}
 		out = s
 	}
@@ -288,17 +302,31 @@ func (w *world) kill(identity, ability string) string {
 	w.sys.Terminate(prc.NewProcessId(w.sys.PhysicalAddress(), addr), false)
 	deadline := time.Now().Add(settleCap)
 	for {
-		still := false
-		for _, m := range w.members() {
-			if m[0] == ability && m[1] == identity {
-				still = true
+		// read, in one turn of the manager, whether it still has the child and whether it still remembers
+		// the pair: the runtime removes the child and hands OnTerminated to the manager in the same turn,
+		// so "child gone, pair remembered" is final, not a matter of waiting longer
+		v := w.inManager(func(ctx vivid.ActorContext) any {
+			child, member := false, false
+			for _, r := range ctx.Children() {
+				if r.GetLogicalAddress() == addr {
+					child = true
+				}
 			}
-		}
-		if !still {
+			for _, m := range w.mgr.Members() {
+				if m[0] == ability && m[1] == identity {
+					member = true
+				}
+			}
+			return [2]bool{child, member}
+		})
+		st, ok := v.([2]bool)
+		switch {
+		case ok && !st[1]:
 			return "killed " + enc(addr)
-		}
-		if time.Now().After(deadline) {
+		case ok && !st[0] && st[1]:
 			return "killed-but-remembered " + enc(addr)
+		case time.Now().After(deadline):
+			return "kill-timeout " + enc(addr)
 		}
 		time.Sleep(time.Millisecond)
 	}
